@@ -35,7 +35,9 @@ QUICK_N = 20000
 THOROUGH_N = 1000000
 CHUNK = 400
 RULE = ("gen(seed): receive window, scripted peer consumption steps then drain, send_cap/delay/"
-        "defer tapes, max_write_buffer_size knob (often an exact-fit boundary), list of writes "
+        "defer tapes, max_write_buffer_size knob (often an exact-fit boundary, sometimes 0), "
+        "optionally 1-2 predecessor streams on the same loop closed while write-blocked with fd "
+        "numbers reused, list of writes "
         "(sizes 0,1,..,2047,2048,2049,4096,4097,70000; bytes / memoryview of bytes|bytearray / "
         "itemsize 2,4,8 / sliced views) each followed by none|await own future|await an earlier "
         "future|idle|sleep, interleaved with owner-cancels-a-queued-write-future ops, a read_bytes "
@@ -279,6 +281,8 @@ def gen(rng, tier, index):
         b = rng.choice(sizes)
         mwb = max(1, rng.choice([a, a + 1, a - 1, a + b, a + b - 1, a + b + 1, 2 * a + b, total // 2,
                                  max(sizes), max(sizes) - 1]))
+        if rng.random() < 0.06:
+            mwb = 0  # the smallest legal limit: only empty writes are accepted
     ops = []
     for i, n in enumerate(sizes):
         kind = rng.choice(KINDS) if rng.random() < 0.7 else "b"
@@ -338,6 +342,16 @@ def gen(rng, tier, index):
         tapes["defer"] = [rng.choice([0, 1]) for _ in range(10)]
     if rng.random() < 0.1:
         tapes["late"] = [rng.choice([0, 1, 3]) for _ in range(5)]
+    # earlier streams on the same loop, closed while write-blocked; fd numbers are reused, and
+    # the stream under test then starts with a pending read before its back-pressured writes
+    pre = []
+    if rng.random() < 0.2:
+        for _ in range(rng.choice([1, 1, 2])):
+            pw = rng.choice([1, 4, 64])
+            pre.append({"window": pw, "n": rng.choice([0, pw, pw + 1, pw + 100, 3000]),
+                        "wait": rng.choice([0, 0, 1]), "read": rng.random() < 0.3})
+        if ops[0].get("op") != "r":
+            ops.insert(0, {"op": "r", "n": 1000, "partial": False})
     maxlen = 3 if tier == "quick" else 4
     sb = sb_enumerated(index, maxlen)
     if sb is None:
@@ -348,6 +362,7 @@ def gen(rng, tier, index):
                   "drain_gap": rng.choice([0, 1, 3])},
         "ops": ops,
         "consumer": steps,
+        "pre": pre,
         "tapes": tapes,
         "sb": sb,
     }
@@ -358,8 +373,11 @@ def validate(scn):
         k = scn["knobs"]
         if not isinstance(k["window"], int) or k["window"] < 1:
             return False
+        for pre in scn.get("pre", ()):
+            if not isinstance(pre, dict):
+                return False
         m = k.get("max_write_buffer_size")
-        if m is not None and (not isinstance(m, int) or m < 1):
+        if m is not None and (not isinstance(m, int) or m < 0):
             return False
         for op in scn["ops"]:
             if not isinstance(op, dict) or op.get("op") not in ("w", "c", "x", "r", "ps"):
@@ -465,13 +483,56 @@ def run(scn, full_log=False):
             st["acc"] = acc + ln
             env.log.ev("acc", acc + ln)
 
+        async def predecessors():
+            """Earlier streams on the same loop, each closed while write-blocked; with fd
+            reuse the stream under test then inherits their fd number."""
+            net.reuse_fds = True
+            for pi, pre in enumerate(scn.get("pre", ())):
+                w = max(1, int(pre.get("window", 1)))
+                n = max(0, int(pre.get("n", 0)))
+                psock, ppeer = net.pair(window_ab=w, name="pre%d" % pi)
+                ppeer.auto = False
+                raw = pattern(n, 7 + pi)
+
+                def pre_tap(sk, chunk, raw=raw):
+                    off = sk.sent - len(chunk)
+                    if raw[off:off + len(chunk)] != chunk:
+                        bad("write.pre_stream_bytes_mismatch",
+                            f"predecessor stream {pi}: transport accepted wrong bytes at {off}")
+                net.send_tap = pre_tap
+                ps = IOStream(psock)
+                if pre.get("read"):
+                    rf = ps.read_bytes(100)
+                else:
+                    rf = None
+                wf = ps.write(raw)
+                u = int(pre.get("wait", 0) or 0)
+                if u > 0:
+                    await asyncio.sleep(u * UNIT)
+                else:
+                    await loop.idle()
+                if ps.writing():
+                    probe("predecessor_closed_while_write_blocked")
+                ps.close()
+                for f in (wf, rf):
+                    if f is not None and f.done() and not f.cancelled():
+                        f.exception()
+                await loop.idle()
+            net.send_tap = None
+
         async def main():
+            if scn.get("pre"):
+                await predecessors()
             sock, peer = net.pair(window_ab=knobs["window"])
+            if scn.get("pre") and sock.fileno() == 101:
+                probe("fd_number_reused")
             peer.auto = bool(knobs.get("auto"))
             kw = {}
-            if knobs.get("max_write_buffer_size"):
-                kw["max_write_buffer_size"] = knobs["max_write_buffer_size"]
+            if knobs.get("max_write_buffer_size") is not None:  # 0 is a legal limit
+                kw["max_write_buffer_size"] = int(knobs["max_write_buffer_size"])
             mwb = kw.get("max_write_buffer_size")
+            if mwb == 0:
+                probe("max_write_buffer_size_zero")
             stream = IOStream(sock, **kw)
             net.send_tap = tap
             orig_send = sock.send
